@@ -638,7 +638,16 @@ def c20_cases(run):
     hists.append(([f"O1={_hex(small)}"] + ["C1=R:0:0:0:0:" + _hex("// a\n")] * 5 + ["P1", "X1", f"O1={_hex(C20_TEXTS[1])}", "C1=R:0:0:0:0:" + _hex("// b\n"), "P1", "H1",
                    f"O1={_hex(C20_TEXTS[2])}", "C1=R:0:0:0:0:" + _hex("// c\n"), "C1=R:0:0:0:0:" + _hex("// d\n"), "P1", "F1"], True))
     # ... and a document OPENED behind the pile is there for the request that follows it
-    hists.append(([f"O1={_hex(small)}", f"O0={_hex(BIG_DOC)}"] + ["C1=R:0:0:0:0:" + _hex(" ")] * 150 + ["O2=" + _hex(C20_TEXTS[2]), "P2", "H2", "C2=R:0:0:0:0:" + _hex("// x\n"), "P2"], True))
+    # (piles of several sizes: whether the inbox is still full when the `didOpen` arrives depends on how fast the
+    # large document is analysed on this machine)
+    for npile in (40, 150, 400):
+        hists.append(([f"O1={_hex(small)}", f"O0={_hex(BIG_DOC)}"] + ["C1=R:0:0:0:0:" + _hex(" ")] * npile + ["O2=" + _hex(C20_TEXTS[2]), "P2", "H2", "C2=R:0:0:0:0:" + _hex("// x\n"), "P2"], True))
+    # the histories that fill the broker's inbox once more on ONE runtime thread: whether a task spawned by the reader
+    # or the reader itself gets the next free slot then no longer depends on which core picks the task up
+    single0 = len(hists)
+    for toks, d in list(hists):
+        if len(toks) > 30 and toks[0].startswith("O1=") and toks[1].startswith("O0="):
+            hists.append((toks, d))
     slow = [i % 3 == 1 or n_hist <= i < n_small or n_flush0 <= i < n_flush1 for i in range(len(hists))]
     # sequential in-process reference
     seq_in = "\n".join(f"SEQ {1 if d else 0} " + " ".join(t) for t, d in hists) + "\n"
@@ -647,7 +656,7 @@ def c20_cases(run):
     skipped = 0
 
     def one(job):
-        (toks, d), sl = job
+        ((toks, d), sl), hk = job
         msgs = c20_messages(toks, d)
         # everything but `shutdown` / `exit` in one write; they follow only when every request has been answered (or
         # after five minutes): an answer that needs further input to come out has been held back
@@ -656,10 +665,11 @@ def c20_cases(run):
         want = [100000] + [k for k, t in enumerate(toks) if t[0] in "PFUMH"]
         # default multi-threaded runtime (all cores); slow = the client does not read for the first 1.5 s: the stdout
         # pipe, the responder channel and the broker fill up
-        return lc.run_session_wait(main, end, want, wait=300.0, timeout=300, workers=None, read_after=1.5 if sl else None)
+        return lc.run_session_wait(main, end, want, wait=300.0, timeout=300, workers="1" if hk >= single0 else None,
+                                   read_after=1.5 if sl else None)
 
     with ThreadPoolExecutor(max_workers=4) as ex:
-        results = list(ex.map(one, list(zip(hists, slow))))
+        results = list(ex.map(one, list(zip(zip(hists, slow), range(len(hists))))))
     n_msgs = 0
     for hk, ((toks, d), ref, r) in enumerate(zip(hists, seq_out, results)):
         line = f"{1 if d else 0} " + " ".join(toks)
